@@ -354,6 +354,29 @@ def F24_lone_survivor_killed():
         return f'the player left alone was killed: statuses {s.statuses}, stacks {s.stacks}, payoffs {s.payoffs}'
 
 
+def F25_unknown_suit_hand():
+    """C04 (fixed in 3658538): five cards of unknown suit were 'suited' - a straight flush."""
+    from pokerkit import BadugiHand, StandardHighHand, StandardLowHand
+    bad = []
+    for cls, txt in ((StandardHighHand, 'A?K?Q?J?T?'), (StandardHighHand, 'Ac2c3c4c5?'), (BadugiHand, 'A?2c3d4h'),
+                     (StandardLowHand, '4?K?5?2?J?')):
+        try:
+            h = cls(txt)
+        except (ValueError, KeyError):
+            continue
+        bad.append(f'{cls.__name__}({txt!r}) accepted as {h.entry.label.value}')
+    if bad:
+        return '; '.join(bad)
+
+
+def F26_icm_more_payouts_than_players():
+    """C18 (fixed in 6db14ca): with more paid places than players every ICM value was 0."""
+    from pokerkit.analysis import calculate_icm
+    e = calculate_icm([50, 30, 20], [60, 40])
+    if abs(sum(e) - 80) > 1e-9 or not e[0] > e[1] > 0:
+        return f'calculate_icm([50, 30, 20], [60, 40]) = {e}'
+
+
 DEMOS = {k: v for k, v in globals().items() if k.startswith('F') and callable(v) and k[1:2].isdigit()}
 
 if __name__ == '__main__':
